@@ -798,6 +798,14 @@ class BuiltinsMixin:
             if conv in ("r", "x"):
                 return SOpaque("format")
             if conv == "s":
+                vkind = "bytes" if isinstance(val, bytes) else "str" if isinstance(val, str) else val.kind if isinstance(val, SStr) else None
+                if is_b and vkind != "bytes":
+                    if vkind == "str" or isinstance(val, (int, SInt)):
+                        # b"%s" % text / number: "%b requires a bytes-like object"
+                        raise RaiseSig(SExc(exc_class("TypeError")), self.lineno)
+                    return SOpaque("format")
+                if not is_b and vkind == "bytes":
+                    return SOpaque("format")  # the repr b'...' of the bytes, not its content
                 if isinstance(val, (str, bytes)):
                     out.append(val.decode("latin-1") if isinstance(val, bytes) else val)
                 elif isinstance(val, SStr):
